@@ -312,8 +312,10 @@ def may_panic(an, rep, side, rule_id, min_roots=90, min_reach=100, crate=None, r
     counts = {}
     undisposed = {}
     n_assert = n_panic = n_ext = 0
-    from ..layers import primitive_unit
+    from ..layers import primitive_unit, varint_unit
     unit = primitive_unit(core) if crate is None else set()
+    vunit = varint_unit(core) if crate is None else set()
+    n_vunit = 0
     owner, owner_users = _owner_fn(core, cg)
     n_unit = 0
     for defn, path in sorted(paths.items()):
@@ -332,6 +334,14 @@ def may_panic(an, rep, side, rule_id, min_roots=90, min_reach=100, crate=None, r
                 # and R3 (coordinate systems)
                 n_unit += 1
                 R.ok(sample={"fn": b.key, "primitive_layer_site": t.get("kind") or mir.callee_key(t["callee"]), "discharged_by": "P4 + R3"})
+                continue
+            if defn in vunit and (t["k"] == "assert" or (t["k"] == "call" and "Index" in mir.callee_key(t["callee"]))):
+                # the varint routines are interpreted exhaustively by pack B (every path, concrete indices and shift
+                # amounts): B0 fails closed on any out-of-range index / shift, so their asserts are discharged there
+                why = discharge_assert(b, ex, facts, bb, t) if t["k"] == "assert" else None
+                n_vunit += 1
+                R.ok(sample={"fn": b.key, "varint_site": t.get("kind") or mir.callee_key(t["callee"]),
+                             "discharged_by": why or "exhaustive bit-level interpretation (B0-B6)"})
                 continue
             if t["k"] == "assert":
                 n_assert += 1
@@ -398,6 +408,7 @@ def may_panic(an, rep, side, rule_id, min_roots=90, min_reach=100, crate=None, r
             R.fail(fk, kind, what, mir.loc(b, bb), {"call_path_from_root": path})
     R.count("asserts", n_assert)
     R.count("primitive_layer_sites", n_unit)
+    R.count("varint_sites", n_vunit)
     R.count("panic_calls", n_panic)
     R.count("documented_may_panic_calls", n_ext)
     return R
